@@ -329,6 +329,30 @@ def run(ctx):
     else:
         ctx.violation(Finding('R-EDGECLAMP', RP, 'PseudoNetCDFFile.val2idx', unclamped if unclamped is not None else v2.body[-1], 'the cell index from np.interp over the edges is not clamped to size - 1 afterwards: a value exactly on the '
                               'closing edge gets index n, a cell that does not exist (np.interp\'s right= only covers values beyond the last edge)'))
+    # the clamp must let a NaN index through (left=np.nan / a missing query is reported as missing, clean='mask' masks it): np.fmin and
+    # np.nanmin-style functions ignore NaN and turn it into the last cell
+    for c in [c for c in ast.walk(v2) if isinstance(c, ast.Call) and (dotted(c.func) or '') in ('np.fmin', 'np.nanmin', 'np.fmax') and 'size - 1' in norm(c)]:
+        ctx.violation(Finding('R-EDGECLAMP', RP, 'PseudoNetCDFFile.val2idx', api.stmt_of(c), '%s ignores NaN: a fractional index that is NaN (query below the domain with left=np.nan, or a missing query '
+                              'value) becomes size - 1, so the query is reported as lying in the last cell instead of being masked' % dotted(c.func)))
+    # ---- R-RESBOTH: the resolution at which times are compared is the finer one of the queries and of the file's own times
+    ctx.rule('R-RESBOTH', 'time2t: the resolution loop examines the fields of the queries and of the file\'s own times (either one can stop it)')
+    own = set(st.targets[0].id for st in iter_stmts(t2.body) if isinstance(st, ast.Assign) and isinstance(st.targets[0], ast.Name) and 'getTimes' in norm(st.value))
+    qpar = t2.args.args[1].arg if len(t2.args.args) > 1 else 'time'
+    resloops = [st for st in iter_stmts(t2.body) if isinstance(st, ast.For) and any(isinstance(x, ast.Break) for x in iter_stmts(st.body))]
+    if not resloops or not own:
+        ctx.undec('R-RESBOTH', 'resolution loop', w16, 'loop or the file times not found')
+    else:
+        lp = resloops[0]
+        probed = set()
+        for comp in [x for st in iter_stmts(lp.body) for x in walk_expr(st) if isinstance(x, (ast.ListComp, ast.GeneratorExp))]:
+            if 'getattr' in norm(comp.elt):
+                probed |= set(n_.id for n_ in ast.walk(comp.generators[0].iter) if isinstance(n_, ast.Name))
+        if (probed & own) and (qpar in probed or any(qpar in norm(st.value) for st in iter_stmts(t2.body) if isinstance(st, ast.Assign) and isinstance(st.targets[0], ast.Name)
+                                                       and st.targets[0].id in probed)):
+            ctx.ok('R-RESBOTH', 'resolution loop', w16, 'fields of %s examined' % sorted(probed))
+        else:
+            ctx.violation(Finding('R-RESBOTH', RP, 'PseudoNetCDFFile.time2t', lp, 'the resolution is decided from %s only: times of the file (or edges) finer than every query are truncated to the coarser unit before '
+                                  'the interpolation, and nearest / bounds lookups return the neighbouring step' % (sorted(probed) or 'nothing')))
     # ---- R-BOUNDSKEYS: both conventional names of the bounds variable are always candidates
     ctx.rule('R-BOUNDSKEYS', "val2idx looks for <dim>_bounds and <dim>_bnds whether or not the coordinate names a bounds variable")
     bk = [st for st in iter_stmts(v2.body) if isinstance(st, ast.Assign) and norm(st.targets[0]) == 'bounds_keys' and isinstance(st.value, ast.List)]
@@ -476,4 +500,17 @@ def check_tzdrop(ctx, mod, q, rule='R-TZDROP'):
                     ctx.violation(Finding(rule, mod.relpath, q, api.stmt_of(c),
                                           'replace(tzinfo=None) on a timezone-aware datetime without astimezone(utc): the '
                                           'instant is shifted by its UTC offset'))
+                # the test that decides whether the conversion runs looks at every element (any(...)), not at one sample of the array
+                child, p_ = c, getattr(c, '_parent', None)
+                while p_ is not None and p_ is not fn:
+                    if isinstance(p_, ast.If) and 'tzinfo' in norm(p_.test) and any(child is b or any(child is x for x in ast.walk(b)) for b in p_.body):
+                        t_ = p_.test
+                        sample = [x for x in ast.walk(t_) if isinstance(x, ast.Subscript) and isinstance(x.slice, ast.Constant) and isinstance(x.slice.value, int)]
+                        overall = any(isinstance(x, ast.Call) and dotted(x.func) in ('any', 'np.any') for x in ast.walk(t_))
+                        if sample and not overall:
+                            ctx.violation(Finding(rule, mod.relpath, q, p_, 'whether the times are converted to UTC is decided from one element (%s): in a list that mixes naive and aware datetimes '
+                                                  'whose sampled element is naive, the aware ones keep their wall-clock fields and are off by their UTC offset' % norm(sample[0])[:40]))
+                        else:
+                            ctx.ok(rule, '%s:gate' % q, where, 'conversion gate covers every element')
+                    child, p_ = p_, getattr(p_, '_parent', None)
     return n
